@@ -590,7 +590,13 @@ int KSI_TreeBuilder_close(KSI_TreeBuilder *builder) {
 				root = node;
 			} else {
 				res = KSI_TreeNode_join(builder->ctx, builder->hsr, node, root, &tmp);
-				if (res != KSI_OK) goto cleanup;
+				if (res != KSI_OK) {
+					/* Put the sub-trees back (all the slots below are empty by now), so
+					 * they are not lost and the tree can still be closed or freed. */
+					builder->stack[i - 1] = root;
+					builder->stack[i] = node;
+					goto cleanup;
+				}
 
 				root = tmp;
 				tmp = NULL;
